@@ -29,7 +29,8 @@ func init() {
 			"(15) sys/leases/revoke answers without error only across a successful Revoke/LazyRevoke; " +
 			"(16) RevokeByToken expires each lease in the namespace resolved from that lease's id; " +
 			"(17) token tidy deletes a parent-index entry only across successful lookups of the parent and of the child, the child being looked up by the id part of the key in the namespace the key's suffix names; " +
-			"(18) writers of the parent-index key (storeCommon, revokeInternal) append the namespace suffix exactly when the token's own namespace is not the root namespace, and the readers that split the key (tree walk, orphaning loop) look the id part up in the namespace the suffix names, falling back only to their tabled own context.",
+			"(18) writers of the parent-index key (storeCommon, revokeInternal) append the namespace suffix exactly when the token's own namespace is not the root namespace, and the readers that split the key (tree walk, orphaning loop) look the id part up in the namespace the suffix names, falling back only to their tabled own context; " +
+			"(19) the namespace a token-addressed request (auth/token/lookup|renew|revoke|revoke-orphan) is switched into is split off the SSC-decoded token whenever the body token is an SSC token, never off the raw body string.",
 		NotDecided: "restart after a prefix of a revocation's writes (crash points); that ClearView removes every cubbyhole key; interleavings other than the declared create-vs-revoke conflict pair; behaviour of the expiration manager's retry queue.",
 		Run:        runC04,
 	})
